@@ -61,6 +61,7 @@ func c33stream(sizes []int, rbuf int, depth int, closerThread bool) func() {
 		mcrt.GoNamed("writer", func() {
 			defer wg.Done()
 			for i, n := range sizes {
+				mcrt.Yield() // the writer, too, does other things between two Writes (see the reader)
 				startedAfterClose := o.closeReturned
 				p := c33payload(i, n)
 				k, err := w.Write(p)
@@ -90,6 +91,9 @@ func c33stream(sizes []int, rbuf int, depth int, closerThread bool) func() {
 			buf := make([]byte, rbuf)
 			zero := 0
 			for {
+				// a real reader does other things between two Reads: without this point consecutive Reads served
+				// from the connection's current chunk would be one atomic step and nothing could run in between
+				mcrt.Yield()
 				n, err := r.Read(buf)
 				o.read = append(o.read, buf[:n]...)
 				if err != nil {
